@@ -127,6 +127,45 @@ def build_obligation(inst):
                 p = pc(b)
                 exp.append(Ac[b] * p * p + Bc[b])
             return [(got, exp)]
+        if kind == "delta_integrate_joint":
+            # joint unit-mass Delta over (x, y); integrating a SUBSET of its variables evaluates the integrand there and
+            # leaves a point mass over the rest:  Integrate(d, f, {x})(y=Y) == f(px, Y) * [Y == py]
+            _, bx, by, subset = inst
+            inx = OrderedDict((k, Bint[n]) for k, n in bx.items())
+            iny = OrderedDict((k, Bint[n]) for k, n in by.items())
+            P = mk.array("px", tuple(bx.values()), "real")
+            Q = mk.array("py", tuple(by.values()), "real")
+            A = mk.array("a", (), "real")
+            Bv = mk.array("b", (), "real")
+            Y = mk.array("yv", (), "real")
+            X = mk.array("xv", (), "real")
+            x, y = Variable("x", Real), Variable("y", Real)
+            d = Delta("x", Tensor(P, inx)) + Delta("y", Tensor(Q, iny))
+            f = Tensor(A) * x * y + Tensor(Bv) * x
+            try:
+                r = Integrate(d, f, frozenset(Variable(n, Real) for n in subset))
+            except (NotImplementedError, ValueError) as e:
+                raise Decline(str(e)[:80])
+            rest = [n for n in ("x", "y") if n not in subset]
+            pairs = [(_b(mk, set(r.inputs) == set(bx) | set(by) | set(rest)), None)]
+            bind = {n: Tensor({"x": X, "y": Y}[n]) for n in rest}
+            r = r(**bind) if bind else r
+            allb = OrderedDict(list(bx.items()) + [(k, n) for k, n in by.items() if k not in bx])
+            got, exp = [], []
+            Pc, Qc, Ac, Bc, Yc, Xc = _cells(P), _cells(Q), _cells(A)[()], _cells(Bv)[()], _cells(Y)[()], _cells(X)[()]
+            for b in itertools.product(*(range(n) for n in allb.values())):
+                env = dict(zip(allb, b))
+                pxv = Pc[tuple(env[k] for k in bx)]
+                pyv = Qc[tuple(env[k] for k in by)]
+                got.append(result_cells(r, env)[()])
+                if "x" in subset and "y" in subset:
+                    exp.append(Ac * pxv * pyv + Bc * pxv)
+                elif "x" in subset:
+                    exp.append(C.c_where(Yc == pyv, Ac * pxv * Yc + Bc * pxv, 0.0))
+                else:
+                    exp.append(C.c_where(Xc == pxv, Ac * Xc * pyv + Bc * Xc, 0.0))
+            pairs.append((got, exp))
+            return pairs
         if kind == "sample":
             _, sizes, sampled, sample_inputs, part = inst
             names = list(sizes)
@@ -236,6 +275,9 @@ def instances(tier, seed):
         for pk in ("tensor", "number", "lazy"):
             out.append(("delta_reduce", batch, pk))
             out.append(("delta_integrate", batch, pk))
+    for bx, by in ((OrderedDict(), OrderedDict()), (OrderedDict(i=2), OrderedDict(j=3)), (OrderedDict(i=2), OrderedDict(i=2)), (OrderedDict(i=2), OrderedDict())):
+        for subset in (("x",), ("y",), ("x", "y")):
+            out.append(("delta_integrate_joint", bx, by, subset))
     cfgs = []
     maxsize = 3 if tier == "quick" else 4
     for n_in in (1, 2, 3):
@@ -265,7 +307,7 @@ def main():
     chk = Check("C14", "model_checking")
     insts = instances(chk.tier, chk.seed)
     chk.map("checks.c14", "worker", insts, chunksize=2)
-    chk.bounds = dict(delta="batch 0-2 inputs, scalar and (2,) points; points that are numbers, batched tensors, lazy expressions", sampling="1-3 inputs of sizes 1-3|4 (<= 12|24 cells), every sampled subset, 0-2 sample inputs",
+    chk.bounds = dict(delta="batch 0-2 inputs, scalar and (2,) points; points that are numbers, batched tensors, lazy expressions; joint Delta over two real variables integrated over each subset", sampling="1-3 inputs of sizes 1-3|4 (<= 12|24 cells), every sampled subset, 0-2 sample inputs",
                       rng="np.random.rand replaced by fresh symbolic reals with 0 <= r < 1: every draw")
     chk.assumptions = ["RESTRICTED CLAIM: Gaussian sampling (needs triangular solves / QR / log-determinants), Contraction._sample and MonteCarlo are NOT covered", "unit-mass Delta only for the reduce/integrate identities (funsor's Delta is a normalised measure)",
                        "rows of the sampled tensor have positive mass (precondition)", "statistical properties of the RNG are outside the claim"]
